@@ -223,6 +223,22 @@ def rule_units_lines(prog, rep):
             rep.fail("UNDECIDED rule=C11.LINES get_line_column: the line value `%s` comes neither from ariadne nor from a recognisable LF/CR counter" % line_sym[:160])
         else:
             rep.finding("C11.LINES", f.name, "separator-set", "the line counter breaks lines at %s; GraphQL's LineTerminator is LF, CRLF or CR" % sorted("U+%04X" % c for c in consts), f.loc())
+    # look-ahead past the prefix: whether a CR ends a line depends on the byte *after* it, and for
+    # a CR that is the last byte before `offset` that byte is at `offset`, outside `before`.  So a
+    # read at (index + k) must go to the whole text, not to the prefix cut at `offset`.
+    looks = []
+    for g in [f] + [h for h in prog.fns.values() if h.root == f.uid and h.uid != f.uid]:
+        for c in g.live_calls():
+            if re.search(r"slice::<impl \[T\]>::get$|ops::Index<.*>>::index$|traits::index$", c.name + " " + c.orig_name) and len(c.args) == 2:
+                idx = g.sym(c.args[1])
+                if re.match(r"^(&?\*?)?Add\(", idx) and re.search(r"Iterator>::next\(|\.0", idx):
+                    looks.append((g, c, g.sym(c.args[0])))
+    for g, c, recv in looks:
+        if re.search(r"RangeTo::RangeTo\{arg2\}|RangeTo\{&?arg2\}", recv):
+            rep.finding("C11.LINES", f.name, "lookahead-in-prefix",
+                        "the look-ahead for `\\r\\n` reads index + 1 in the text *before* the offset (`%s`): for a `\\r` that is the last byte before the offset the `\\n` is not seen, so the position between `\\r` and `\\n` of a CRLF is reported on the next line" % recv[:90], c.loc())
+        else:
+            rep.instance("C11.LINES", "the CRLF look-ahead reads the whole source text, not the prefix cut at the offset")
     # range = two point lookups
     g = prog.fn(r"^%sparser::SourceFile::get_line_column_range$" % A)
     cs = [c for c in g.live_calls() if c.uid == f.uid]
